@@ -61,7 +61,8 @@ def _verify_worker(args):
 
 def run_pyvc(prop, tier, unbound):
   from pyvc import contract as C
-  timeout_ms = 10000 if tier == 'quick' else 60000
+  # budgets sized so that verdicts do not flip when all cores are busy (typical query: < 1 s)
+  timeout_ms = 30000 if tier == 'quick' else 120000
   todo = [c.id for c in C.REGISTRY.values()
           if prop in c.props and c.kind == 'contract' and not c.abstract and c.id not in unbound]
   results = []
